@@ -187,14 +187,15 @@ fn run_tree_impl(case: &TreeCase) -> Outcome {
     })
 }
 
-fn stop_matches(stop: &Stop, err: &Option<String>) -> bool {
-    match (stop, err) {
-        (Stop::EndOfInput, None) => true,
-        (Stop::ExtraRightBrace, Some(t)) => t == "there is no group to end",
-        (Stop::ExtraFi, Some(t)) => t.starts_with("unexpected `fi`"),
-        (Stop::FileNotFound(_), Some(t)) => t.starts_with("could not read from"),
-        (Stop::TooManyInputs, Some(t)) => t == "too many input levels (100)",
-        _ => false,
+/// How the end of a run is judged (AUDIT.md). The statement supports: a run inside the limit ends
+/// without an error; beyond the documented limit of 100 there is *an* error (no particular text). What
+/// the crate does at an unmatched `}`, an extra `\\fi` or a missing file is outside the statement (TeX
+/// recovers from the first two): only the output up to that point is compared, whatever follows.
+fn run_agrees(want: &readtoks::RunResult, got: &vtex::RunOut) -> bool {
+    match &want.stop {
+        Stop::EndOfInput => got.err.is_none() && got.out == want.out,
+        Stop::TooManyInputs => got.err.is_some() && got.out == want.out,
+        _ => got.out.starts_with(&want.out),
     }
 }
 fn show_model(r: &readtoks::RunResult) -> String {
@@ -263,7 +264,7 @@ fn judge_tree(idx: u64, case: &TreeCase, acc: &mut Acc, inline_oracle: bool) {
             return;
         }
     };
-    if got.out == want.out && stop_matches(&want.stop, &got.err) {
+    if run_agrees(&want, &got) {
         if inline_oracle {
             inline_check(idx, case, &got, acc);
         }
@@ -273,7 +274,7 @@ fn judge_tree(idx: u64, case: &TreeCase, acc: &mut Acc, inline_oracle: bool) {
         // finding D14a: applies = an \endinput is executed while the line of its file (or a token list
         // above it) still holds something TeX reads; adjusted = per-source flag, rest of the line dropped
         let adj = readtoks::run_input(&case.files, &case.main, &cfg, EndInput::PerSourceDropLine);
-        if got.out == adj.out && stop_matches(&adj.stop, &got.err) {
+        if run_agrees(&adj, &got) {
             acc.known("D14a", idx, || {
                 let mut j = case.json();
                 j["expected_tex"] = json!(show_model(&want));
@@ -318,7 +319,8 @@ fn inline_check(idx: u64, case: &TreeCase, got: &vtex::RunOut, acc: &mut Acc) {
     acc.count("inlining_oracle_applied");
     match run_tree_impl(&pasted) {
         Outcome::Done(r) => {
-            if &r != got {
+            // same delivered characters, and an error in the one iff in the other (no particular text)
+            if r.out != got.out || r.err.is_some() != got.err.is_some() {
                 let mut j = case.json();
                 j["kind"] = json!("inline");
                 j["pasted_main"] = json!(pasted.main);
@@ -570,7 +572,8 @@ fn run_history_impl(prog: &str, drain: &str) -> Result<ImplRun, vcore::Panic> {
 }
 
 fn printed_matches(p: &Printed, r: &vtex::RunOut) -> bool {
-    p.out == r.out && p.dead.map(|s| s.to_string()) == r.err
+    // an error where TeX has one (terminal exhausted, file ended inside a group): no particular text
+    p.out == r.out && p.dead.is_some() == r.err.is_some()
 }
 fn show_printed(p: &Printed) -> String {
     match p.dead {
@@ -627,6 +630,14 @@ fn check_history(idx: u64, h: &[Act], obs: &[i64], with_drain: bool, no_elc: boo
             acc.count("two_streams_open");
         }
     }
+    // stream numbers outside 0..15 are not in the statement ("on up to 16 streams"): TeX's answer (§435:
+    // recoverable error, 0 is used; §482: the terminal) is expected, a difference is recorded, not judged
+    let out_of_range = h.iter().any(|a| {
+        let s = match a {
+            Act::Open(s, _) | Act::Read(s) | Act::IfEof(s) | Act::Close(s) => *s,
+        };
+        !(0..16).contains(&s)
+    });
     let got = match run_history_impl(&prog, &drain) {
         Ok(g) => g,
         Err(p) if p.cutoff => {
@@ -655,6 +666,10 @@ fn check_history(idx: u64, h: &[Act], obs: &[i64], with_drain: bool, no_elc: boo
         });
         acc.class("history: D14b");
         impl_is_adjusted = true;
+    } else if out_of_range {
+        acc.class("stream number outside 0..15: differs from TeX §435/§482 (not judged)");
+        acc.count("out_of_range_stream_number_differs_from_tex");
+        return None;
     } else {
         acc.fail(idx, case(), show_printed(&mt.p), got.main.show(), "output of the history differs from TeX §482-486");
         return None;
@@ -694,6 +709,10 @@ fn check_history(idx: u64, h: &[Act], obs: &[i64], with_drain: bool, no_elc: boo
             j
         });
         acc.class("drain: D14b");
+    } else if out_of_range {
+        acc.class("stream number outside 0..15: differs from TeX §435/§482 (not judged)");
+        acc.count("out_of_range_stream_number_differs_from_tex");
+        return None;
     } else {
         acc.fail(idx, dcase(), format!("{} (terminal lines used {})", show_printed(&mt.p), mt.m.terminal_pos), format!("{} (terminal lines used {})", gd.show(), got.terminal_pos), "state reached by the history differs from TeX §482-486 (observed by draining every stream)");
         return None;
